@@ -155,9 +155,8 @@ Inv_C10_nostale == \A p \in uni \cup idx : p[1] \in last[p[2]] \/ p[2] \in dirty
 Inv_C10_count == \A e \in Eps : Cardinality(last[e]) <= lastN[e]
 \* a rejected or failed update leaves the previous attribution intact
 RejectedKeeps == [][act' \in {"Bad", "Fail"} => UNCHANGED <<last, lastN, perEp, idx, uni>>]_vars
-\* concurrent steps: endpoints that only saw failures keep theirs
-OthersKeep == [][act' \in {"Reg", "Rm", "Burst"} =>
-                   \E e \in Eps : \A o \in Eps \ {e} : last'[o] = last[o] /\ perEp'[o] = perEp[o]]_vars
+\* only an accepted listing or a removal ever changes an attribution (merges and failures never do)
+OnlyUpdatesChange == [][(last' # last \/ perEp' # perEp \/ idx' # idx) => act' \in {"Reg", "Direct", "Rm", "Burst", "Par"}]_vars
 \* what is attributed after a successful listing passed the endpoint's filter
 OnlyFiltered == \A e \in Eps : \A m \in last[e] : Passes(m, flt[e].inc, flt[e].exc)
 
